@@ -318,9 +318,157 @@ def unit_joint_tendon(ctx):
   ctx.prove(sess, "no-other-entry-written", Implies(kt.written("ten_J_out", w, j2), And(cmp(">=", j2, adr), cmp("<", j2, arith("+", adr, nnz)), kt.pre("ten_J_colind", j2) == dof)), True, names=dict(names, j2=j2), replay=rp, desc="_joint_tendon: writes a Jacobian entry of another column / another tendon")
 
 
+# ------------------------------------------------------------------------------------------------ spatial tendons
+# Modular proof of the Jacobian structure of spatial tendons:
+#  (1) chain unit: smooth._accumulate_jac_chain(offset, vec, body, scale) adds, to every stored entry (column c) of the
+#      tendon's CSR row, scale * vec . (cdof_lin[c] + cdof_ang[c] x offset) if dof c belongs to `body` or one of its
+#      ancestors and nothing otherwise - i.e. scale * vec . jacp(point, body)[:, c] with the mj_jac column of the jac_dof
+#      unit when offset = point - subtree_com[root(body)];
+#  (2) site / geom units: with (1) as the contract of _accumulate_jac_chain, every straight segment p_a (body a) -> p_b
+#      (body b) issues exactly the two calls (offset_a about a's own tree root, -pulley) and (offset_b about b's own tree
+#      root, +pulley) with vec = unit(p_b - p_a), and the length contribution is pulley * (segment lengths + arc).
+# The wrap geometry (util_misc.wrap: tangent points, arc length) is an uninterpreted function: outside.
+
+
+def chain_terms(kt, U):
+  A = kt.args
+  b0 = A["bodyid"]
+  chain, alive = [b0], [cmp(">", b0, 0)]
+  for i in range(U):
+    nxt = kt.pre("body_parentid", chain[i])
+    chain.append(nxt)
+    alive.append(And(alive[i], cmp(">", nxt, 0)))
+  da = [kt.pre("body_dofadr", c) for c in chain]
+  dn = [kt.pre("body_dofnum", c) for c in chain]
+  return chain, alive, da, dn
+
+
+def chain_cases(kt, U, D):
+  """complete case split of the integer structure _accumulate_jac_chain walks (chain of <= U bodies with <= U dofs each,
+  dof ids < D, CSR row of <= U sorted columns < D): (name, substitutions, guard)"""
+  import itertools
+
+  A = kt.args
+  chain, alive, da, dn = chain_terms(kt, U)
+  rowadr, rownnz = A["rowadr"], A["rownnz"]
+  col = lambda k: kt.pre("ten_J_colind", arith("+", rowadr, k))
+  rows = []
+  for r in range(U + 1):
+    for cols in itertools.combinations(range(D), r):
+      rows.append((f"{r}:{','.join(map(str, cols))}", [(rownnz, r)] + [(col(k), cols[k]) for k in range(r)]))
+  out = []
+
+  def bodies(i, n, hi, acc):
+    # dof blocks of bodies i..n-1, each strictly below `hi` (parents' dofs precede the child's)
+    if i == n:
+      yield list(acc)
+      return
+    yield from bodies(i + 1, n, hi, acc + [(0, None)])
+    for num in range(1, U + 1):
+      for adr in range(0, hi - num + 1):
+        yield from bodies(i + 1, n, adr, acc + [(num, adr)])
+
+  for n in range(U + 1):
+    g = And(*[cmp(">", chain[i], 0) for i in range(n)], cmp("<=", chain[n], 0))
+    for bl in bodies(0, n, D, []):
+      sb = []
+      for i, (num, adr) in enumerate(bl):
+        sb.append((dn[i], num))
+        if num:
+          sb.append((da[i], adr))
+      nm = "/".join("-" if not num else f"{adr}+{num}" for num, adr in bl) or "none"
+      for rn, rs in rows:
+        out.append((f"{nm}|{rn}", sb + rs, g))
+  return out
+
+
+def chain_pre(kt, U, D):
+  A = kt.args
+  chain, alive, da, dn = chain_terms(kt, U)
+  rowadr, rownnz = A["rowadr"], A["rownnz"]
+  col = lambda k: kt.pre("ten_J_colind", arith("+", rowadr, k))
+  pre = [Not(alive[U]), rownnz >= 0, rownnz <= U]
+  for i in range(U):
+    pre.append(Implies(alive[i], And(dn[i] >= 0, dn[i] <= U, Implies(dn[i] > 0, And(da[i] >= 0, da[i] + dn[i] <= D)))))
+    for j in range(i + 1, U):
+      for m in range(i, j):
+        pass
+    # the nearest dof-bearing ancestor's block ends before this body's block starts (depth-first dof numbering)
+    for j in range(i + 1, U):
+      between = And(*[dn[m] == 0 for m in range(i + 1, j)])
+      pre.append(Implies(And(alive[j], dn[i] > 0, dn[j] > 0), da[j] + dn[j] <= da[i]))
+  for k in range(U):
+    pre.append(Implies(k < rownnz, And(col(k) >= 0, col(k) < D)))
+    if k + 1 < U:
+      pre.append(Implies(k + 1 < rownnz, col(k) < col(k + 1)))
+  return [core.zbool(x) for x in pre]
+
+
+def goal_chain(spec, pre, post):
+  import numpy as np
+
+  g = lambda l: c05._scal(spec, l)
+  b, w, rowadr, rownnz, scale = int(g("bodyid")), int(g("worldid")), int(g("rowadr")), int(g("rownnz")), float(np.float32(g("scale")))
+  off, vec = [float(np.float32(x)) for x in g("offset")], [float(np.float32(x)) for x in g("vec")]
+  anc = set()
+  while b > 0:
+    a, n = int(pre["body_dofadr"][b]), int(pre["body_dofnum"][b])
+    anc |= set(range(a, a + n))
+    b = int(pre["body_parentid"][b])
+  bad = []
+  for k in range(rownnz):
+    c = int(pre["ten_J_colind"][rowadr + k])
+    want = 0.0
+    if c in anc:
+      cd = [float(x) for x in pre["cdof_in"][w, c]]
+      jp = rf.vadd(cd[3:], rf.cross(cd[:3], off))
+      want = rf.dot(jp, vec) * scale
+    got = float(post["ten_J_out"][w, rowadr + k] - pre["ten_J_out"][w, rowadr + k])
+    if not lib.approx(got, want, rtol=2e-3, atol=1e-5):
+      bad.append(f"entry {k} (column {c}): added {got}, reference scale*vec.jacp = {want}")
+  return (not bad), "; ".join(bad) or "agrees"
+
+
+def unit_chain(U, D):
+  def run(ctx):
+    from checks import kernels_c22 as K
+    from mujoco_warp._src import smooth
+
+    k = K.accumulate_jac_chain_wrap
+    loc = "checks.kernels_c22:accumulate_jac_chain_wrap"
+    ctx.encode(smooth._accumulate_jac_chain)
+    ctx.bound(unroll=U, max_dof_id=D, note=f"body chain <= {U} bodies, <= {U} dofs per body, dof ids < {D}, CSR row <= {U} entries")
+    ctx.assume("the call's own array accesses are in bounds (C17)", "loop trip counts <= unroll bound", "floats are exact reals", "depth-first dof numbering: an ancestor body's dofs precede its descendants' dofs; CSR columns strictly increasing (MuJoCo model invariants)")
+    kt = lib.kernel_thread(k, unroll=U)
+    A = kt.args
+    w, rowadr, rownnz, scale = A["worldid"], A["rowadr"], A["rownnz"], A["scale"]
+    off, vec = A["offset"].c, A["vec"].c
+    chain, alive, da, dn = chain_terms(kt, U)
+    bg = kt.bg + chain_pre(kt, U, D)
+    cases = chain_cases(kt, U, D)
+    ctx.bound(case_split=f"{len(cases)} integer structures (dof blocks of the chain x CSR column patterns), complete under the bounds (cases-cover query)")
+    col = lambda kk: kt.pre("ten_J_colind", arith("+", rowadr, kk))
+    ANC = lambda d: Or(*[And(alive[i], cmp("<=", da[i], d), cmp("<", d, arith("+", da[i], dn[i]))) for i in range(U)])
+    ctx.reach(ctx.session(bg), "twin:ancestor-entry", And(alive[0], rownnz >= 1, ANC(col(0))))
+    ctx.reach(ctx.session(bg), "twin:non-ancestor-entry", And(alive[0], rownnz >= 1, Not(ANC(col(0)))))
+    rp = lib.make_replay(ctx, kt, loc, "chain", "goal", goal="checks.c22:goal_chain", env={"randomize_floats": 2})
+    names = {"body": A["bodyid"], "world": w, "rowadr": rowadr, "rownnz": rownnz}
+    for kk in range(U):
+      d = col(kk)
+      cd = [kt.pre("cdof_in", w, d, k=i) for i in range(6)]
+      jp = rf.vadd(cd[3:], rf.cross(cd[:3], off))
+      want = ite(ANC(d), arith("*", rf.dot(jp, vec), scale), 0.0)
+      goal = cmp("==", kt.atomic_total("ten_J_out", w, arith("+", rowadr, kk)), want)
+      c05.prove_hard(ctx, bg, f"entry{kk}=scale*vec.jacp", goal, cmp("<", kk, rownnz), cases, True, cases_first=True, names=names, replay=rp, desc=f"_accumulate_jac_chain: the amount added to CSR entry {kk} is not scale * vec . (cdof_lin + cdof_ang x offset) of an ancestor dof (0 for other columns)")
+    j2, w2 = z3.Int("j2"), z3.Int("w2")
+    ctx.prove(ctx.session(bg), "writes-own-row-only", Implies(kt.written("ten_J_out", w2, j2), And(w2 == w, j2 >= rowadr, j2 < rowadr + rownnz)), True, names=dict(names, j2=j2, w2=w2), replay=rp, desc="_accumulate_jac_chain writes outside the tendon's CSR row / world")
+
+  return ("spatial/accumulate_jac_chain", run)
+
+
 def main(tier, seed, only=None):
   U = 3
-  units = [("refcheck", unit_refcheck), ("jac_dof", unit_jac_dof), ("tendon/joint_tendon", unit_joint_tendon), unit_velocity("tendon", U), unit_velocity("actuator", U)]
+  units = [("refcheck", unit_refcheck), ("jac_dof", unit_jac_dof), ("jac_dot_dof", c05.unit_jac_dot_dof), unit_chain(2, 4), ("tendon/joint_tendon", unit_joint_tendon), unit_velocity("tendon", U), unit_velocity("actuator", U)]
   for b in c05.SIMPLE:
     for sp in ((False, True), (True, True)):
       units.append(unit_vel(b, sp, 2 if b == "_equality_tendon" and (sp[0] or tier == "quick") else U))
